@@ -437,8 +437,66 @@ def cases_of(shard_args):
                            "shape": shape, "inner": list(inner)}
 
 
+def child_main():
+    """Runs in a fresh interpreter in which PyYAML has no libyaml extension"""
+    import json
+
+    import yaml
+
+    results = {"with_libyaml": bool(yaml.__with_libyaml__), "cases": [], "controls": 0}
+    for position in POSITIONS[:3]:
+        if run_control(position, "map") is None:
+            results["controls"] += 1
+    for spec in all_tag_specs():
+        for position in ("pipeline-head", "section-value"):
+            if position not in POSITIONS:
+                position = POSITIONS[0]
+            for shape in ("seq", "map"):
+                case = {"tag": list(spec), "spelling": "short", "position": position,
+                        "shape": shape}
+                key, what, error = run_case(case)
+                results["cases"].append([case, key, what, type(error).__name__])
+    try:
+        os.unlink(_scratch_path())
+    except OSError:
+        pass
+    sys.stdout.write("\n@@RESULT@@" + json.dumps(results))
+
+
+def shard_nolibyaml(args):
+    """The same rejection must not depend on PyYAML's optional C extension being present"""
+    import json
+    import subprocess
+
+    from vlib.core import REPO, VERIF
+
+    code = ("import sys; sys.modules['yaml._yaml'] = None; "
+            "sys.path[:0] = [%r, %r, %r]; import checks.c18 as c; c.child_main()"
+            % (VERIF, os.path.join(REPO, "src"), os.path.join(VERIF, "plugins")))
+    proc = subprocess.run([sys.executable, "-c", code], capture_output=True, text=True,
+                          timeout=900, cwd=VERIF)
+    acc = Acc()
+    if "@@RESULT@@" not in proc.stdout:
+        raise RuntimeError("no-libyaml child failed: %s" % (proc.stderr[-800:],))
+    results = json.loads(proc.stdout.split("@@RESULT@@")[1])
+    if results["with_libyaml"]:
+        raise RuntimeError("could not hide libyaml from the child interpreter")
+    acc.count("no-libyaml:controls-loaded", results["controls"])
+    for case, key, what, error in results["cases"]:
+        case["no_libyaml"] = True
+        acc.case(nontrivial_key=repr(case))
+        acc.outcome(("no-libyaml", error, key))
+        acc.count("no-libyaml:cases")
+        if key:
+            acc.violation("no-libyaml:" + key, "without the libyaml extension: " + what,
+                          {"case": case})
+    return acc
+
+
 def shard(args):
     acc = Acc()
+    if args[0] == "nolibyaml":
+        return shard_nolibyaml(args)
     try:
         if args[0] == "selftest":
             acc.count("canary-selftests-passed", canary_selftest())
@@ -474,7 +532,7 @@ def shard(args):
 def run(ctx):
     specs = all_tag_specs()
     spellings = ["short"] if ctx.quick else ["short", "verbatim"]
-    shards = [("selftest",), ("controls",)]
+    shards = [("selftest",), ("controls",), ("nolibyaml",)]
     shards += [("single", spec, spellings) for spec in specs]
     if not ctx.quick:
         shards += [("nested", spec) for spec in specs]
@@ -519,5 +577,8 @@ def run(ctx):
 def replay(data):
     if "control" in data:
         return run_control(*data["control"])
+    if data["case"].get("no_libyaml"):
+        acc = shard_nolibyaml(("nolibyaml",))
+        return "; ".join(v["what"] for v in acc.violations[:3]) or None
     key, what, _ = run_case(data["case"])
     return None if key is None else "%s: %s" % (key, what)
